@@ -13,46 +13,139 @@ open KB Generated
 def ModCmp (c : Compare) (k : Bytes) (n : Int) : Prop :=
   c.target = .mod ∧ c.result = .equal ∧ c.key = k ∧ c.rangeEnd = [] ∧ c.int = n
 
-/-- `Get(k)`: a point read of `k` at the current revision, nothing stripped or filtered -/
+/-- `Get(k)`: a point read of `k` at the current revision, nothing stripped or filtered (limit, sort
+order, `serializable` are free: they do not change the answer of a point read) -/
 def PlainGet (g : RangeReq) (k : Bytes) : Prop :=
-  g.key = k ∧ g.rangeEnd = [] ∧ g.revision = 0 ∧ g.limit = 0 ∧ g.countOnly = false ∧ g.keysOnly = false ∧
-  g.sortDesc = false ∧ g.minMod = 0 ∧ g.maxMod = 0 ∧ g.minCreate = 0 ∧ g.maxCreate = 0
+  g.key = k ∧ g.rangeEnd = [] ∧ g.revision = 0 ∧ g.countOnly = false ∧ g.keysOnly = false ∧
+  g.minMod = 0 ∧ g.maxMod = 0 ∧ g.minCreate = 0 ∧ g.maxCreate = 0
 
 def PlainPut (p : PutReq) : Prop :=
   p.key ≠ [] ∧ p.prevKv = false ∧ p.ignoreValue = false ∧ p.ignoreLease = false
 
 /-- The transactions Kubernetes issues, as the explicit well-shapedness predicate: the compare is
 `mod(k) = n` on the key the ops work on, no `range_end` anywhere, the Get is plain, the put carries no
-flags, a guarded delete has a non-zero expectation. (Lease, `serializable`, the delete's `prev_kv`
-are free.) -/
+flags, a guarded delete has a positive expectation. (Lease, limit / sort order / `serializable` of the
+point Get, the delete's `prev_kv` are free.) -/
 inductive Canonical : TxnReq → Prop where
   | create (c : Compare) (p : PutReq) : ModCmp c p.key 0 → PlainPut p →
       Canonical { compare := [c], success := [.put p], failure := [] }
-  | update (c : Compare) (p : PutReq) (g : RangeReq) (n : Int) : ModCmp c p.key n → 0 ≤ n → PlainPut p →
+  | update (c : Compare) (p : PutReq) (g : RangeReq) (n : Int) : ModCmp c p.key n → PlainPut p →
       PlainGet g p.key → Canonical { compare := [c], success := [.put p], failure := [.range g] }
   | gdelete (c : Compare) (d : DelReq) (g : RangeReq) (n : Int) : ModCmp c d.key n → 0 < n → d.key ≠ [] →
       d.rangeEnd = [] → PlainGet g d.key → Canonical { compare := [c], success := [.del d], failure := [.range g] }
   | udelete (g : RangeReq) (d : DelReq) : d.key ≠ [] → d.rangeEnd = [] → PlainGet g d.key →
       Canonical { compare := [], success := [.range g, .del d], failure := [] }
 
+theorem isModOn_iff {c : Compare} {k : Bytes} : c.isModOn k = true ↔ ∃ n, ModCmp c k n := by
+  unfold Compare.isModOn ModCmp
+  constructor
+  · intro h
+    simp only [Bool.and_eq_true, beq_iff_eq, List.isEmpty_iff] at h
+    exact ⟨c.int, h.1.1.1, h.1.1.2, h.2, h.1.2, rfl⟩
+  · rintro ⟨n, h1, h2, h3, h4, _⟩
+    simp [h1, h2, h3, h4]
+
+theorem isPlainGet_iff {g : RangeReq} {k : Bytes} : g.isPlainGet k = true ↔ PlainGet g k := by
+  unfold RangeReq.isPlainGet PlainGet
+  constructor
+  · intro h
+    simp only [Bool.and_eq_true, beq_iff_eq, List.isEmpty_iff, Bool.not_eq_true'] at h
+    obtain ⟨⟨⟨⟨⟨⟨⟨⟨h1, h2⟩, h3⟩, h4⟩, h5⟩, h6⟩, h7⟩, h8⟩, h9⟩ := h
+    exact ⟨h1, h2, h3, h4, h5, h6, h7, h8, h9⟩
+  · rintro ⟨h1, h2, h3, h4, h5, h6, h7, h8, h9⟩
+    simp [h1, h2, h3, h4, h5, h6, h7, h8, h9]
+
 theorem classify_create {c : Compare} {p : PutReq} (h : ModCmp c p.key 0) :
     classify { compare := [c], success := [.put p], failure := [] } = .create p := by
-  obtain ⟨h1, h2, _, _, h5⟩ := h
-  simp [classify, isCreate, Compare.isModEq, h1, h2, h5]
+  have hm := isModOn_iff.mpr ⟨0, h⟩
+  simp [classify, isCreate, hm, h.2.2.2.2]
 
-theorem classify_update {c : Compare} {p : PutReq} {g : RangeReq} {n : Int} (h : ModCmp c p.key n) :
+theorem classify_update' {c : Compare} {p : PutReq} {g : RangeReq} {n : Int} (h : ModCmp c p.key n)
+    (h1 : p.prevKv = false) (h2 : p.ignoreValue = false) (h3 : p.ignoreLease = false) (hg : PlainGet g p.key) :
     classify { compare := [c], success := [.put p], failure := [.range g] } = .update n p.key p.val p.lease := by
-  obtain ⟨h1, h2, h3, _, h5⟩ := h
-  simp [classify, isCreate, isDelete, isUpdate, Compare.isModEq, h1, h2, h3, h5]
+  have hm := isModOn_iff.mpr ⟨n, h⟩
+  have hgg := isPlainGet_iff.mpr hg
+  simp [classify, isCreate, isDelete, isUpdate, hm, hgg, h1, h2, h3, h.2.2.2.2]
 
-theorem classify_gdelete {c : Compare} {d : DelReq} {g : RangeReq} {n : Int} (h : ModCmp c d.key n) :
-    classify { compare := [c], success := [.del d], failure := [.range g] } = .delete n d.key := by
-  obtain ⟨h1, h2, _, _, h5⟩ := h
-  simp [classify, isCreate, isDelete, Compare.isModEq, h1, h2, h5]
+theorem classify_update {c : Compare} {p : PutReq} {g : RangeReq} {n : Int} (h : ModCmp c p.key n)
+    (hp : PlainPut p) (hg : PlainGet g p.key) :
+    classify { compare := [c], success := [.put p], failure := [.range g] } = .update n p.key p.val p.lease :=
+  classify_update' h hp.2.1 hp.2.2.1 hp.2.2.2 hg
 
-theorem classify_udelete (g : RangeReq) (d : DelReq) :
-    classify { compare := [], success := [.range g, .del d], failure := [] } = .delete 0 d.key := by
-  simp [classify, isCreate, isDelete]
+theorem classify_gdelete {c : Compare} {d : DelReq} {g : RangeReq} {n : Int} (h : ModCmp c d.key n)
+    (h0 : 0 < n) (he : d.rangeEnd = []) (hg : PlainGet g d.key) :
+    classify { compare := [c], success := [.del d], failure := [.range g] } = .delete n d.key true := by
+  have hm := isModOn_iff.mpr ⟨n, h⟩
+  have hgg := isPlainGet_iff.mpr hg
+  simp [classify, isCreate, isDelete, hm, hgg, he, h0, h.2.2.2.2]
+
+theorem classify_udelete {g : RangeReq} {d : DelReq} (he : d.rangeEnd = []) (hg : PlainGet g d.key) :
+    classify { compare := [], success := [.range g, .del d], failure := [] } = .delete 0 d.key false := by
+  have hgg := isPlainGet_iff.mpr hg
+  simp [classify, isCreate, isDelete, hgg, he]
+
+/-! ### inversion: what the recognisers accept is well-shaped -/
+
+theorem isCreate_inv {t : TxnReq} {p : PutReq} (h : isCreate t = some p) :
+    ∃ c, t = { compare := [c], success := [.put p], failure := [] } ∧ ModCmp c p.key 0 := by
+  unfold isCreate at h
+  split at h
+  · rename_i _ _ _ c p0 h1 h2 h3
+    split at h
+    · rename_i hc
+      cases h
+      simp only [Bool.and_eq_true, beq_iff_eq] at hc
+      obtain ⟨n, hn⟩ := isModOn_iff.mp hc.1
+      refine ⟨c, by cases t; simp_all, ?_⟩
+      exact ⟨hn.1, hn.2.1, hn.2.2.1, hn.2.2.2.1, hc.2⟩
+    · cases h
+  · cases h
+
+theorem isUpdate_inv {t : TxnReq} {n : Int} {k v : Bytes} {l : Int} (h : isUpdate t = some (n, k, v, l)) :
+    ∃ c p g, t = { compare := [c], success := [.put p], failure := [.range g] } ∧ ModCmp c p.key n ∧
+      p.prevKv = false ∧ p.ignoreValue = false ∧ p.ignoreLease = false ∧ PlainGet g p.key := by
+  unfold isUpdate at h
+  split at h
+  · rename_i _ _ _ c g p h1 h2 h3
+    split at h
+    · rename_i hc
+      simp only [Option.some.injEq, Prod.mk.injEq] at h
+      simp only [Bool.and_eq_true, Bool.not_eq_true'] at hc
+      obtain ⟨⟨⟨⟨hm, f1⟩, f2⟩, f3⟩, hg⟩ := hc
+      obtain ⟨n', hn⟩ := isModOn_iff.mp hm
+      refine ⟨c, p, g, by cases t; simp_all, ?_, f1, f2, f3, isPlainGet_iff.mp hg⟩
+      exact ⟨hn.1, hn.2.1, hn.2.2.1, hn.2.2.2.1, h.1⟩
+    · cases h
+  · cases h
+
+theorem isDelete_inv {t : TxnReq} {n : Int} {k : Bytes} {gd : Bool} (h : isDelete t = some (n, k, gd)) :
+    (gd = false ∧ n = 0 ∧ ∃ g d, t = { compare := [], success := [.range g, .del d], failure := [] } ∧
+      d.key = k ∧ d.rangeEnd = [] ∧ PlainGet g d.key) ∨
+    (gd = true ∧ ∃ c g d, t = { compare := [c], success := [.del d], failure := [.range g] } ∧
+      d.key = k ∧ ModCmp c d.key n ∧ 0 < n ∧ d.rangeEnd = [] ∧ PlainGet g d.key) := by
+  unfold isDelete at h
+  split at h
+  · rename_i _ _ _ g d h1 h2 h3
+    split at h
+    · rename_i hc
+      simp only [Option.some.injEq, Prod.mk.injEq] at h
+      simp only [Bool.and_eq_true, List.isEmpty_iff] at hc
+      left
+      exact ⟨h.2.2.symm, h.1.symm, g, d, by cases t; simp_all, h.2.1, hc.1, isPlainGet_iff.mp hc.2⟩
+    · cases h
+  · rename_i _ _ _ c g d h1 h2 h3
+    split at h
+    · rename_i hc
+      simp only [Option.some.injEq, Prod.mk.injEq] at h
+      simp only [Bool.and_eq_true, List.isEmpty_iff, decide_eq_true_eq] at hc
+      obtain ⟨⟨⟨he, hm⟩, hpos⟩, hg⟩ := hc
+      obtain ⟨n', hn⟩ := isModOn_iff.mp hm
+      right
+      refine ⟨h.2.2.symm, c, g, d, by cases t; simp_all, h.2.1, ⟨hn.1, hn.2.1, hn.2.2.1, hn.2.2.2.1, h.1⟩, ?_, he,
+        isPlainGet_iff.mp hg⟩
+      rw [← h.1]; exact hpos
+    · cases h
+  · cases h
 
 /-! ### the live key-value and the index record -/
 
@@ -297,7 +390,7 @@ theorem doUpdate_zero_conflict (c : Cfg) (s : BState) (k v : Bytes)
   simp only [doUpdate, h, failRes, sequence_store, beq_self_eq_true, if_true]
   cases bget c s.store k 0 <;> rfl
 
-theorem doUpdate_nz_ok (c : Cfg) (s : BState) (k v : Bytes) (exp : Nat) (h0 : exp ≠ 0) (hle : exp ≤ s.dealt)
+theorem doUpdate_nz_ok (c : Cfg) (s : BState) (k v : Bytes) (exp : Nat) (h0 : exp ≠ 0) (hle : exp ≤ s.dealt + 1)
     (hi : s.store.get (idxKey k) = some (be8 exp)) :
     (doUpdate c s k v exp []).1 = .ok (s.dealt + 1) := by
   have h1 := doCommit_cas_put_ok c s.store (idxKey k) (be8 (s.dealt + 1)) (be8 exp) (encode k (s.dealt + 1)) v hi
@@ -310,7 +403,7 @@ theorem doUpdate_nz_ok (c : Cfg) (s : BState) (k v : Bytes) (exp : Nat) (h0 : ex
   simp [doUpdate, h0, hlt, nextFault, hd]
 
 theorem doUpdate_nz_conflict (c : Cfg) (hq : c.q.casMissingNotFound = false) (s : BState) (k v : Bytes) (exp : Nat)
-    (h0 : exp ≠ 0) (hle : exp ≤ s.dealt) (hi : s.store.get (idxKey k) ≠ some (be8 exp)) :
+    (h0 : exp ≠ 0) (hle : exp ≤ s.dealt + 1) (hi : s.store.get (idxKey k) ≠ some (be8 exp)) :
     (doUpdate c s k v exp []).1 = failRes c s k := by
   have h1 := doCommit_cas_put_conflict c hq s.store (idxKey k) (be8 (s.dealt + 1)) (be8 exp)
     (encode k (s.dealt + 1)) v hi
@@ -330,7 +423,7 @@ theorem doUpdate_nz_conflict (c : Cfg) (hq : c.q.casMissingNotFound = false) (s 
   | uncertain => simp [CommitRes.isCas] at hr
   | err => simp [CommitRes.isCas] at hr
 
-theorem doUpdate_fst (c : Cfg) (s : BState) (k v : Bytes) (exp : Nat) (h : WHyp c s k) (hexp : exp ≤ s.dealt) :
+theorem doUpdate_fst (c : Cfg) (s : BState) (k v : Bytes) (exp : Nat) (h : WHyp c s k) (hexp : exp ≤ s.dealt + 1) :
     (doUpdate c s k v exp []).1 = match curKv c s k with
       | none => if exp = 0 then .ok (s.dealt + 1) else .condFailed (s.dealt + 1) none
       | some (_, cv, cm) => if exp = cm then .ok (s.dealt + 1)
@@ -399,7 +492,7 @@ theorem doUpdate_fst (c : Cfg) (s : BState) (k v : Bytes) (exp : Nat) (h : WHyp 
             (by rw [hi]; intro he; exact hem (be8_inj (by omega) (by omega) (Option.some.inj he)).symm)]
           simp [failRes, bget_eq, hg, ht]
 
-theorem doDelete_fst (c : Cfg) (s : BState) (k : Bytes) (exp : Nat) (h : WHyp c s k) (hexp : exp ≤ s.dealt) :
+theorem doDelete_fst (c : Cfg) (s : BState) (k : Bytes) (exp : Nat) (h : WHyp c s k) (hexp : exp ≤ s.dealt + 1) :
     (doDelete c s k exp []).1 = match curKv c s k with
       | none => .notFound (s.dealt + 1)
       | some (_, cv, cm) => if exp = 0 ∨ exp = cm then .ok (s.dealt + 1)
@@ -577,11 +670,20 @@ theorem refRangeOn_plain (m : Mvcc) (g : RangeReq) (k : Bytes) (hg : PlainGet g 
     (hn : m.kvs.Pairwise (fun a b => a.key ≠ b.key)) :
     refRangeOn m g = { hdr := m.rev, kvs := (m.get k).toList.map KVFull.proj,
                        count := (m.get k).toList.length, more := false } := by
-  obtain ⟨h1, h2, h3, h4, h5, h6, h7, h8, h9, h10, h11⟩ := hg
+  obtain ⟨h1, h2, h3, h5, h6, h8, h9, h10, h11⟩ := hg
   unfold refRangeOn
   rw [h1, h2, Mvcc.range_point m k hn]
   have hft : ∀ l : List KVFull, l.filter (fun _ => true) = l := fun l => List.filter_eq_self.mpr (by simp)
-  simp [h4, h5, h6, h7, h8, h9, h10, h11, inBounds, hft]
+  cases hget : m.get k with
+  | none => simp [h5, h6, h8, h9, h10, h11, inBounds]
+  | some e =>
+    -- a point read: one candidate, which neither a limit nor the sort order can change
+    by_cases hl : g.limit.toNat > 0
+    · obtain ⟨n, hn'⟩ : ∃ n, g.limit.toNat = n + 1 := ⟨g.limit.toNat - 1, by omega⟩
+      cases hs : g.sortDesc <;>
+        simp [h5, h6, h8, h9, h10, h11, inBounds, hft, hn', hs, Option.toList]
+    · cases hs : g.sortDesc <;>
+        simp [h5, h6, h8, h9, h10, h11, inBounds, hft, hl, hs, Option.toList]
 
 theorem exists_of_map_fst {ε α β : Type} {x : Except ε (α × β)} {a : α} (h : x.map Prod.fst = .ok a) :
     ∃ b, x = .ok (a, b) := by
@@ -737,13 +839,13 @@ theorem sound_create (c : Cfg) (s : BState) (m : Mvcc) (cm : Compare) (p : PutRe
     obtain ⟨m', hm'⟩ := exists_of_map_fst href
     exact ⟨_, _, m', hshim, hm', by simp [TxnResp.obs, readsOf]⟩
 
-theorem sound_update (c : Cfg) (s : BState) (m : Mvcc) (cm : Compare) (p : PutReq) (g : RangeReq) (n : Int)
-    (hc : ModCmp cm p.key n) (h0 : 0 ≤ n) (hle : n ≤ s.dealt) (hp : PlainPut p) (hg : PlainGet g p.key)
+theorem sound_update_in (c : Cfg) (s : BState) (m : Mvcc) (cm : Compare) (p : PutReq) (g : RangeReq) (n : Int)
+    (hc : ModCmp cm p.key n) (h0 : 0 ≤ n) (hle : n ≤ s.dealt + 1) (hp : PlainPut p) (hg : PlainGet g p.key)
     (hw : WHyp c s p.key) (ha : AbsAt c s m p.key) :
     Agree c s m { compare := [cm], success := [.put p], failure := [.range g] } := by
   have hb := hw.bound
   have hu : toU64 n = n.toNat := toU64_of_nonneg h0 (by omega)
-  have hexp : n.toNat ≤ s.dealt := by omega
+  have hexp : n.toNat ≤ s.dealt + 1 := by omega
   have hshim : (shimTxn c s { compare := [cm], success := [.put p], failure := [.range g] }).1 =
       match curKv c s p.key with
       | none => if n.toNat = 0
@@ -754,7 +856,7 @@ theorem sound_update (c : Cfg) (s : BState) (m : Mvcc) (cm : Compare) (p : PutRe
           else .ok { ok := false, hdr := max (s.dealt + 1) cmod,
                      resps := [.range (max (s.dealt + 1) cmod) [(p.key, cv, cmod)] 0 false], wrote := false } := by
     unfold shimTxn
-    rw [classify_update hc]
+    rw [classify_update hc hp hg]
     simp only
     rw [shimUpdate_fst c s n p.key p.val, hu, doUpdate_fst c s p.key p.val n.toNat hw hexp]
     cases curKv c s p.key with
@@ -796,13 +898,13 @@ theorem sound_update (c : Cfg) (s : BState) (m : Mvcc) (cm : Compare) (p : PutRe
       obtain ⟨m', hm'⟩ := exists_of_map_fst href
       exact ⟨_, _, m', hshim, hm', by simp [TxnResp.obs, readsOf, RespOp.kvs?, KVFull.proj, hek]⟩
 
-theorem sound_gdelete (c : Cfg) (s : BState) (m : Mvcc) (cm : Compare) (d : DelReq) (g : RangeReq) (n : Int)
-    (hc : ModCmp cm d.key n) (h0 : 0 < n) (hle : n ≤ s.dealt) (hk : d.key ≠ []) (he : d.rangeEnd = [])
+theorem sound_gdelete_in (c : Cfg) (s : BState) (m : Mvcc) (cm : Compare) (d : DelReq) (g : RangeReq) (n : Int)
+    (hc : ModCmp cm d.key n) (h0 : 0 < n) (hle : n ≤ s.dealt + 1) (hk : d.key ≠ []) (he : d.rangeEnd = [])
     (hg : PlainGet g d.key) (hw : WHyp c s d.key) (ha : AbsAt c s m d.key) :
     Agree c s m { compare := [cm], success := [.del d], failure := [.range g] } := by
   have hb := hw.bound
   have hu : toU64 n = n.toNat := toU64_of_nonneg (by omega) (by omega)
-  have hexp : n.toNat ≤ s.dealt := by omega
+  have hexp : n.toNat ≤ s.dealt + 1 := by omega
   have hn0 : ¬ n.toNat = 0 := by omega
   have hshim : (shimTxn c s { compare := [cm], success := [.del d], failure := [.range g] }).1 =
       match curKv c s d.key with
@@ -813,7 +915,7 @@ theorem sound_gdelete (c : Cfg) (s : BState) (m : Mvcc) (cm : Compare) (d : DelR
           else .ok { ok := false, hdr := max (s.dealt + 1) cmod,
                      resps := [.range (max (s.dealt + 1) cmod) [(d.key, cv, cmod)] 0 false], wrote := false } := by
     unfold shimTxn
-    rw [classify_gdelete hc]
+    rw [classify_gdelete hc h0 he hg]
     simp only
     rw [shimDelete_fst c s n d.key, hu, doDelete_fst c s d.key n.toNat hw hexp]
     cases curKv c s d.key with
@@ -845,54 +947,245 @@ theorem sound_gdelete (c : Cfg) (s : BState) (m : Mvcc) (cm : Compare) (d : DelR
       obtain ⟨m', hm'⟩ := exists_of_map_fst href
       exact ⟨_, _, m', hshim, hm', by simp [TxnResp.obs, readsOf, RespOp.kvs?, KVFull.proj, hek]⟩
 
-/-- the shim's answer to the unguarded delete -/
-theorem shim_udelete (c : Cfg) (s : BState) (g : RangeReq) (d : DelReq) (hw : WHyp c s d.key) :
+/-- the shim's answer to the unguarded delete (a missing key: `Succeeded = true`, kv.go `!guarded`) -/
+theorem shim_udelete (c : Cfg) (s : BState) (g : RangeReq) (d : DelReq) (he : d.rangeEnd = [])
+    (hg : PlainGet g d.key) (hw : WHyp c s d.key) :
     (shimTxn c s { compare := [], success := [.range g, .del d], failure := [] }).1 =
       match curKv c s d.key with
+      | none => .ok { ok := true, hdr := s.dealt + 1, resps := [.range (s.dealt + 1) [] 0 false], wrote := false }
+      | some (k', cv, cmod) =>
+        .ok { ok := true, hdr := s.dealt + 1, resps := [.range (s.dealt + 1) [(k', cv, cmod)] 0 false], wrote := true } := by
+  have hfst : (shimDelete c s 0 d.key).1 = match curKv c s d.key with
       | none => .ok { ok := false, hdr := s.dealt + 1, resps := [.range (s.dealt + 1) [] 0 false], wrote := false }
       | some (k', cv, cmod) =>
         .ok { ok := true, hdr := s.dealt + 1, resps := [.range (s.dealt + 1) [(k', cv, cmod)] 0 false], wrote := true } := by
+    have hu : toU64 0 = 0 := by decide
+    rw [shimDelete_fst c s 0 d.key, hu, doDelete_fst c s d.key 0 hw (by omega)]
+    cases curKv c s d.key with
+    | none => rfl
+    | some kv =>
+      obtain ⟨k', cv, cmod⟩ := kv
+      simp
   unfold shimTxn
-  rw [classify_udelete g d]
+  rw [classify_udelete he hg]
   simp only
-  have hu : toU64 0 = 0 := by decide
-  rw [shimDelete_fst c s 0 d.key, hu, doDelete_fst c s d.key 0 hw (by omega)]
+  generalize hd : shimDelete c s 0 d.key = pr at hfst
+  obtain ⟨r, s'⟩ := pr
+  simp only at hfst
+  subst hfst
   cases curKv c s d.key with
   | none => rfl
   | some kv =>
     obtain ⟨k', cv, cmod⟩ := kv
-    simp
+    rfl
 
 theorem sound_udelete (c : Cfg) (s : BState) (m : Mvcc) (g : RangeReq) (d : DelReq)
     (hk : d.key ≠ []) (he : d.rangeEnd = []) (hg : PlainGet g d.key) (hw : WHyp c s d.key)
-    (ha : AbsAt c s m d.key) (hex : curKv c s d.key ≠ none) :
+    (ha : AbsAt c s m d.key) :
     Agree c s m { compare := [], success := [.range g, .del d], failure := [] } := by
-  have hshim := shim_udelete c s g d hw
+  have hshim := shim_udelete c s g d he hg hw
   have href := ref_udelete m g d hk he hg ha.nodup
-  rcases abs_cases ha with ⟨hcur, _⟩ | ⟨e, hget, hcur, hek, _⟩
-  · exact absurd hcur hex
+  rcases abs_cases ha with ⟨hcur, hget⟩ | ⟨e, hget, hcur, hek, _⟩
+  · rw [hcur] at hshim
+    rw [hget] at href
+    simp only at hshim href
+    obtain ⟨m', hm'⟩ := exists_of_map_fst href
+    exact ⟨_, _, m', hshim, hm', by simp [TxnResp.obs, readsOf, RespOp.kvs?]⟩
   · rw [hcur] at hshim
     rw [hget] at href
     simp only at hshim href
     obtain ⟨m', hm'⟩ := exists_of_map_fst href
     exact ⟨_, _, m', hshim, hm', by simp [TxnResp.obs, readsOf, RespOp.kvs?, KVFull.proj, hek, ha.rev]⟩
 
-/-- the one deviation on a well-shaped transaction: the unguarded delete of a missing key -/
-theorem udelete_missing (c : Cfg) (s : BState) (m : Mvcc) (g : RangeReq) (d : DelReq)
-    (hk : d.key ≠ []) (he : d.rangeEnd = []) (hg : PlainGet g d.key) (hw : WHyp c s d.key)
-    (ha : AbsAt c s m d.key) (hmiss : curKv c s d.key = none) :
-    ∃ r r' m', (shimTxn c s { compare := [], success := [.range g, .del d], failure := [] }).1 = .ok r ∧
-      refTxn m { compare := [], success := [.range g, .del d], failure := [] } = .ok (r', m') ∧
-      r.ok = false ∧ r'.ok = true ∧ r.wrote = false ∧ r'.wrote = false ∧
-      readsOf [.range g, .del d] r.resps = [some []] ∧ readsOf [.range g, .del d] r'.resps = [some []] := by
-  have hshim := shim_udelete c s g d hw
-  have href := ref_udelete m g d hk he hg ha.nodup
-  rcases abs_cases ha with ⟨_, hget⟩ | ⟨e, _, hcur, _, _⟩
-  · rw [hmiss] at hshim
-    rw [hget] at href
-    simp only at hshim href
-    obtain ⟨m', hm'⟩ := exists_of_map_fst href
-    exact ⟨_, _, m', hshim, hm', rfl, rfl, rfl, rfl, by simp [readsOf, RespOp.kvs?], by simp [readsOf, RespOp.kvs?]⟩
-  · rw [hmiss] at hcur; cases hcur
+/-! ### expectations outside `0 .. dealt+1`: refused with a drift error, or answered like etcd -/
+
+theorem toU64_neg {n : Int} (hlo : -2 ^ 63 ≤ n) (hneg : n < 0) : toU64 n = (n + 2 ^ 64).toNat := by
+  unfold toU64
+  have h : n % 2 ^ 64 = (n + 2 ^ 64) % 2 ^ 64 := by rw [Int.add_emod_right]
+  rw [h, Int.emod_eq_of_lt (by omega) (by omega)]
+
+theorem doUpdate_drift (c : Cfg) (s : BState) (k v : Bytes) (exp : Nat) (hgt : s.dealt + 1 < exp) :
+    (doUpdate c s k v exp []).1 = .error .drift := by
+  have h0 : exp ≠ 0 := by omega
+  simp [doUpdate, h0, hgt]
+
+theorem doDelete_far (c : Cfg) (s : BState) (k : Bytes) (exp : Nat) (hgt : s.dealt + 1 < exp) :
+    (doDelete c s k exp []).1 = match curKv c s k with
+      | none => .notFound (s.dealt + 1)
+      | some _ => .error .drift := by
+  have hpos : 0 < exp := by omega
+  rw [curKv_eq]
+  cases hg : getInternal c s.store k 0 with
+  | none => simp [doDelete, bget_eq, hg]
+  | some vm =>
+    obtain ⟨vv, mm⟩ := vm
+    by_cases ht : isTomb vv = true
+    · simp [doDelete, bget_eq, hg, ht]
+    · simp [doDelete, bget_eq, hg, ht, hpos, hgt]
+
+/-- the far expectation as the backend sees it: a revision above `dealt + 1` -/
+theorem toU64_far {n : Int} {dealt : Nat} (hlo : -2 ^ 63 ≤ n) (hhi : n < 2 ^ 63) (h63 : dealt + 1 < 2 ^ 63)
+    (hout : n < 0 ∨ (dealt : Int) + 1 < n) : dealt + 1 < toU64 n := by
+  rcases hout with hneg | hbig
+  · rw [toU64_neg hlo hneg]; omega
+  · rw [toU64_of_nonneg (by omega) (by omega)]; omega
+
+theorem sound_update (c : Cfg) (s : BState) (m : Mvcc) (cm : Compare) (p : PutReq) (g : RangeReq) (n : Int)
+    (hc : ModCmp cm p.key n) (hlo : -2 ^ 63 ≤ n) (hhi : n < 2 ^ 63) (h63 : s.dealt + 1 < 2 ^ 63)
+    (hp : PlainPut p) (hg : PlainGet g p.key) (hw : WHyp c s p.key) (ha : AbsAt c s m p.key) :
+    (∃ e, (shimTxn c s { compare := [cm], success := [.put p], failure := [.range g] }).1 = .error e) ∨
+    Agree c s m { compare := [cm], success := [.put p], failure := [.range g] } := by
+  by_cases hin : 0 ≤ n ∧ n ≤ s.dealt + 1
+  · exact .inr (sound_update_in c s m cm p g n hc hin.1 hin.2 hp hg hw ha)
+  · left
+    have hfar := toU64_far hlo hhi h63 (dealt := s.dealt) (by omega)
+    refine ⟨.backend .drift, ?_⟩
+    unfold shimTxn
+    rw [classify_update hc hp hg]
+    simp only
+    rw [shimUpdate_fst c s n p.key p.val, doUpdate_drift c s p.key p.val (toU64 n) hfar]
+
+theorem sound_gdelete (c : Cfg) (s : BState) (m : Mvcc) (cm : Compare) (d : DelReq) (g : RangeReq) (n : Int)
+    (hc : ModCmp cm d.key n) (h0 : 0 < n) (hhi : n < 2 ^ 63) (h63 : s.dealt + 1 < 2 ^ 63) (hk : d.key ≠ [])
+    (he : d.rangeEnd = []) (hg : PlainGet g d.key) (hw : WHyp c s d.key) (ha : AbsAt c s m d.key) :
+    (∃ e, (shimTxn c s { compare := [cm], success := [.del d], failure := [.range g] }).1 = .error e) ∨
+    Agree c s m { compare := [cm], success := [.del d], failure := [.range g] } := by
+  by_cases hin : n ≤ s.dealt + 1
+  · exact .inr (sound_gdelete_in c s m cm d g n hc h0 hin hk he hg hw ha)
+  · have hfar := toU64_far (n := n) (by omega) hhi h63 (dealt := s.dealt) (by omega)
+    have hshim : (shimTxn c s { compare := [cm], success := [.del d], failure := [.range g] }).1 =
+        match curKv c s d.key with
+        | none => .ok { ok := false, hdr := s.dealt + 1, resps := [.range (s.dealt + 1) [] 0 false], wrote := false }
+        | some _ => .error (.backend .drift) := by
+      unfold shimTxn
+      rw [classify_gdelete hc h0 he hg]
+      simp only
+      rw [shimDelete_fst c s n d.key, doDelete_far c s d.key (toU64 n) hfar]
+      cases curKv c s d.key <;> rfl
+    rcases abs_cases ha with ⟨hcur, hget⟩ | ⟨e, _, hcur, _, _⟩
+    · right
+      rw [hcur] at hshim
+      have href := ref_gdelete m cm d g n hc hk he hg ha.nodup
+      rw [hget] at href
+      simp only at hshim href
+      rw [if_neg (by omega)] at href
+      obtain ⟨m', hm'⟩ := exists_of_map_fst href
+      exact ⟨_, _, m', hshim, hm', by simp [TxnResp.obs, readsOf, RespOp.kvs?]⟩
+    · left
+      rw [hcur] at hshim
+      exact ⟨_, hshim⟩
+
+/-! ### every transaction: refused, or answered like etcd -/
+
+def Op.keyGiven : Op → Prop
+  | .put p => p.key ≠ []
+  | .range r => r.key ≠ []
+  | .del d => d.key ≠ []
+  | _ => True
+
+/-- The request is structurally valid as far as it matters here (etcd's `checkTxnRequest` refuses the
+rest before any semantics): every key is given, the compared integers are int64. -/
+structure ReqOK (t : TxnReq) : Prop where
+  ckeys : ∀ c ∈ t.compare, c.key ≠ []
+  skeys : ∀ o ∈ t.success, o.keyGiven
+  fkeys : ∀ o ∈ t.failure, o.keyGiven
+  ints : ∀ c ∈ t.compare, -2 ^ 63 ≤ c.int ∧ c.int < 2 ^ 63
+
+theorem shimCreate_flags (c : Cfg) (s : BState) (p : PutReq)
+    (h : p.ignoreLease = true ∨ p.ignoreValue = true ∨ p.prevKv = true) :
+    shimCreate c s p = (.error .field, s) := by
+  unfold shimCreate
+  rcases h with h | h | h <;> simp [h]
+
+theorem classify_none {t : TxnReq} (h1 : isCreate t = none) (h2 : isDelete t = none) (h3 : isUpdate t = none) :
+    classify t = if isCompact t then .compact else .unsupported := by
+  simp [classify, h1, h2, h3]
+
+/-- what is executed is well-shaped: the case analysis behind `shim_sound` and
+`executed_only_if_canonical` -/
+theorem txn_cases (t : TxnReq) (hreq : ReqOK t) :
+    (classify t = .unsupported) ∨ (classify t = .compact) ∨
+    (∃ cm p, t = { compare := [cm], success := [.put p], failure := [] } ∧ ModCmp cm p.key 0 ∧
+      (p.ignoreLease = true ∨ p.ignoreValue = true ∨ p.prevKv = true)) ∨
+    Canonical t := by
+  cases h1 : isCreate t with
+  | some p =>
+    obtain ⟨cm, rfl, hc⟩ := isCreate_inv h1
+    by_cases hf : p.ignoreLease = true ∨ p.ignoreValue = true ∨ p.prevKv = true
+    · exact .inr (.inr (.inl ⟨cm, p, rfl, hc, hf⟩))
+    · have hk : p.key ≠ [] := hreq.skeys (.put p) (by simp)
+      have hp : PlainPut p := by
+        refine ⟨hk, ?_, ?_, ?_⟩
+        · cases h : p.prevKv <;> simp_all
+        · cases h : p.ignoreValue <;> simp_all
+        · cases h : p.ignoreLease <;> simp_all
+      exact .inr (.inr (.inr (.create cm p hc hp)))
+  | none =>
+    cases h2 : isDelete t with
+    | some x =>
+      obtain ⟨n, k, gd⟩ := x
+      rcases isDelete_inv h2 with ⟨_, _, g, d, rfl, _, he, hg⟩ | ⟨_, cm, g, d, rfl, _, hc, h0, he, hg⟩
+      · have hk : d.key ≠ [] := hreq.skeys (.del d) (by simp)
+        exact .inr (.inr (.inr (.udelete g d hk he hg)))
+      · have hk : d.key ≠ [] := hreq.skeys (.del d) (by simp)
+        exact .inr (.inr (.inr (.gdelete cm d g n hc h0 hk he hg)))
+    | none =>
+      cases h3 : isUpdate t with
+      | some x =>
+        obtain ⟨n, k, v, l⟩ := x
+        obtain ⟨cm, p, g, rfl, hc, f1, f2, f3, hg⟩ := isUpdate_inv h3
+        have hk : p.key ≠ [] := hreq.skeys (.put p) (by simp)
+        exact .inr (.inr (.inr (.update cm p g n hc ⟨hk, f1, f2, f3⟩ hg)))
+      | none =>
+        rw [classify_none h1 h2 h3]
+        cases isCompact t <;> simp
+
+/-- the key a well-shaped transaction works on -/
+def opKey (t : TxnReq) : Bytes :=
+  match t.success with
+  | [.put p] => p.key
+  | [.del d] => d.key
+  | [_, .del d] => d.key
+  | _ => []
+
+/-- a well-shaped transaction is refused with a drift error (expectation outside `0 .. dealt+1`) or
+answered like etcd -/
+theorem canonical_sound (c : Cfg) (s : BState) (m : Mvcc) (t : TxnReq) (hcan : Canonical t)
+    (hints : ∀ cm ∈ t.compare, -2 ^ 63 ≤ cm.int ∧ cm.int < 2 ^ 63) (h63 : s.dealt + 1 < 2 ^ 63)
+    (hw : WHyp c s (opKey t)) (ha : AbsAt c s m (opKey t)) :
+    (∃ e, (shimTxn c s t).1 = .error e) ∨ Agree c s m t := by
+  cases hcan with
+  | create cm p hc hp => exact .inr (sound_create c s m cm p hc hp hw ha)
+  | update cm p g n hc hp hg =>
+    have hi := hints cm (by simp)
+    rw [hc.2.2.2.2] at hi
+    exact sound_update c s m cm p g n hc hi.1 hi.2 h63 hp hg hw ha
+  | gdelete cm d g n hc h0 hk he hg =>
+    have hi := hints cm (by simp)
+    rw [hc.2.2.2.2] at hi
+    exact sound_gdelete c s m cm d g n hc h0 hi.2 h63 hk he hg hw ha
+  | udelete g d hk he hg => exact .inr (sound_udelete c s m g d hk he hg hw ha)
+
+theorem getInternal_empty (c : Cfg) (k : Bytes) (R : Nat) : getInternal c [] k R = none := by
+  have hlim : ∀ lim, applyLimit c.q lim [] = [] := by
+    intro lim
+    unfold applyLimit
+    split
+    · rfl
+    · cases c.q.limitMode <;> simp
+  have hdesc : ∀ a b, iterDesc c.q [] a b = [] := by
+    intro a b
+    unfold iterDesc
+    cases h : c.q.revFirstUnchecked <;> simp
+  have hit : ∀ a b lim, iterate c.q [] a b lim = [] := by
+    intro a b lim
+    unfold iterate
+    split
+    · exact hlim lim
+    · split
+      · rw [hdesc]; exact hlim lim
+      · exact hlim lim
+  unfold getInternal
+  simp only [hit]
 
 end KB.Etcd
